@@ -42,7 +42,7 @@
 From Coq Require Import List NArith ZArith Bool Lia Permutation.
 From PM Require Import Base.Bytes Base.Outcome Gen.GenConsts Model.ScriptAst Model.Enqueue Model.Script Model.Device Model.DevHarness
                        Model.Client Model.CliWorld Model.Daemon Spec.Proto
-                       Proofs.ClientProofs Proofs.ClientProto Proofs.ClientStream Proofs.ClientStreamQ Proofs.DeviceInv Proofs.DeviceRun Proofs.DeviceInvG Proofs.DeviceRunG
+                       Proofs.ClientProofs Proofs.ClientProto Proofs.ClientStream Proofs.ClientStreamQ Proofs.DeviceInv Proofs.DeviceRun Proofs.DeviceInvG Proofs.DeviceRunG Proofs.DeviceHang
                        Proofs.DeviceSlots Proofs.DaemonLedger Proofs.DaemonFrame Proofs.DaemonSlots Proofs.DaemonPending Proofs.DeviceMask Proofs.DeviceDeadline
                        Proofs.DaemonDeadline Proofs.DeviceDeadlineBackoff.
 Import ListNotations.
@@ -101,7 +101,7 @@ Section DP.
           intros j d Hj Hn. exfalso. apply nth_error_None in En.
           assert (nth_error (dm_devs st') j = None) by (apply nth_error_None; lia). congruence. }
       destruct (with_pre (nth i (dm_pipe st) true) (nth i (dm_tel st) Telnet.telnet_init) (hd passin0 pins)) as [pin t1] eqn:Ew.
-      assert (Hd : DInvRG compress d) by (pose proof (dp_devs _ _ I) as H; rewrite Forall_forall in H; apply H; eapply nth_error_In; exact En).
+      assert (Hd : DInvRG compress d) by (pose proof (dp_devs _ _ I) as H; rewrite Forall_forall in H; apply DInvH_RG, H; eapply nth_error_In; exact En).
       destruct Hd as [Hd Hrc].
       pose proof (post_poll_one_inv_pre rmatch compress short_circuit now d (dm_store st) tmo pin Hd Hp Hrc) as HG.
       destruct (ppo now d (dm_store st) tmo pin) as [[[[d' store'] tmo'] evs1]| | | |] eqn:EP; try discriminate.
@@ -271,7 +271,7 @@ Section DP.
       destruct (HD j d1 Hn1) as (store & tmoj & d2' & store' & tmo' & ev' & Hpj & EP & Hn2' & Hle).
       rewrite Hn2 in Hn2'. injection Hn2' as <-.
       set (pin := dev_pin st1 j (nth j (r_dev r) passin0)) in *.
-      assert (Hd1 : DInvRG compress d1) by (pose proof (dp_devs _ _ I1) as H; rewrite Forall_forall in H; apply H; eapply nth_error_In; exact Hn1).
+      assert (Hd1 : DInvRG compress d1) by (pose proof (dp_devs _ _ I1) as H; rewrite Forall_forall in H; apply DInvH_RG, H; eapply nth_error_In; exact Hn1).
       destruct Hd1 as [Hd1 Hrc1].
       pose proof (post_poll_one_inv_pre rmatch compress short_circuit (r_now r) d1 store tmoj pin Hd1 Hpj Hrc1) as HG. rewrite EP in HG. destruct HG as [SP TK].
       assert (Hin1 : In id (queued d1)) by (rewrite <- (tg_fifo _ _ _ _ _ _ _ _ _ SP); apply in_or_app; right; exact Hin2).
@@ -394,7 +394,7 @@ Section DP.
     apply (daemon_bounded_time id B r rs st st' outs lim t0 I Hnl Hs1 Hs2 Hq E Ht); [|exact HB].
     intros j d Hn Hin. destruct (Hdev j d Hn Hin) as (R & Hb). split; [exact R|].
     destruct R as (HT & _ & Hst & _).
-    assert (Hd : DInvRG compress d) by (pose proof (dp_devs _ _ I) as H; rewrite Forall_forall in H; apply H; eapply nth_error_In; exact Hn).
+    assert (Hd : DInvRG compress d) by (pose proof (dp_devs _ _ I) as H; rewrite Forall_forall in H; apply DInvH_RG, H; eapply nth_error_In; exact Hn).
     destruct outs as [|o outs]; [apply drun_acc in E as (new & E1 & E2); cbn [app] in E1; subst new; discriminate E2|].
     cbn [dtimely] in Ht. destruct Ht as (Ht0 & _).
     pose proof (pot_le sigma Hsigma (r_now r) d (proj2 Hd) HT (stamps_le_mono t0 (r_now r) _ Ht0 Hst)). lia.
